@@ -16,7 +16,6 @@ use futures::{stream::FuturesUnordered, StreamExt};
 #[cfg(test)]
 use mockall::automock;
 use secp256k1::hashes::sha256;
-use tokio::join;
 use tracing::{debug, instrument, warn};
 
 use crate::rpc::{ClnRpc, RpcError};
@@ -155,7 +154,6 @@ where
             start: None,
             status: Some(ListsendpaysStatus::COMPLETE),
         };
-        let completed_payments_fut = self.rpc.listsendpays(&completed_req);
         let pending_req = ListsendpaysRequest {
             payment_hash: Some(payment_hash),
             bolt11: None,
@@ -164,10 +162,11 @@ where
             start: None,
             status: Some(ListsendpaysStatus::PENDING),
         };
-        let pending_payments_fut = self.rpc.listsendpays(&pending_req);
-        let (completed_payments, pending_payments) =
-            join!(completed_payments_fut, pending_payments_fut);
-        let (completed_payments, pending_payments) = (completed_payments?, pending_payments?);
+        // Query the pending parts before the completed ones. A part that
+        // completes in between the two queries is then either still listed as
+        // pending (and awaited below), or already listed as complete.
+        let pending_payments = self.rpc.listsendpays(&pending_req).await?;
+        let completed_payments = self.rpc.listsendpays(&completed_req).await?;
 
         if let Some(preimage) = completed_payments
             .payments
